@@ -5,24 +5,28 @@
      options   (prepend file?, align?, prepend separator, date format?, format, offset seconds,
                 separator (already unescaped), --summary?, window lower / upper bound in ns)
      files     in PathId order: (prepended name, its character count, its display width,
-                streamed container?, bytes as hex chunks)
+                streamed container?, bytes as hex chunks, kind) with kind one of
+                  CText | CYearless off mtime | CRecords hint layout-name |
+                  CEvtx [Some (instant ns, text) | None ...] | CJournal [(receive time us, merge instant ns, text) ...]
      dated     the generator's table: hex of a line -> its instant (ns); every other line is undated
+     ydated    for year-less logs: hex of a line -> (month, day, time of day in ns)
      bs        --blocksz
      stdout    what the binary wrote (hex chunks); nums = summary numbers
-               [Printed bytes; Printed lines; Printed syslines; first printed (s); last printed (s)]
+               [Printed bytes; lines; syslines; fixedstruct; evtx; journal; first printed (s); last printed (s)]
                (empty without --summary)
    C (spec level)  [spec_bad]:  stdout and totals vs Program.program_spec.
    B (model level) [model_bad]: stdout and totals vs Program.program_m at that block size under the
                                 schedule recorded by hook H1 (R i k -> Send i, Recv i; P -> Print).
-   Codes: 0 agree (not listed); 1000 + k: stdout differs first at byte k; 2..6: summary number
-   code-2 differs; 7: the case is outside `domain` (generator defect); 8: stage 1 of the model
-   rejects a file at this block size (C12 findings F3a-c: not compared); model only: 20 + n:
-   program_m ended otherwise (21 worker, 22 schedule rejected, 23 schedule not final). *)
+   Codes: 0 agree (not listed); 1000 + k: stdout differs first at byte k; 2..9: summary number
+   code-2 differs; 9000000 + i: source i is outside `domain` (generator defect, or layout detection
+   picked another layout / a journal whose source times step back: counted, not compared);
+   8: stage 1 of the model rejects a text file at this block size (C12 findings: not compared);
+   model only: 21 a worker model ended abnormally, 22 schedule rejected, 23 schedule not final. *)
 From Coq Require Import String.
 From S4.Base Require Import Bytes Chunk.
-From S4.Spec Require LinesSpec WindowSpec.
-From S4.Gen Require CoordTables.
-From S4.Model Require Coord Print Summary Gate.
+From S4.Spec Require LinesSpec WindowSpec RecordsSpec JournalSpec.
+From S4.Gen Require CoordTables FixedStructTables.
+From S4.Model Require Coord Print Summary Gate Year Records RecordRender Journal.
 From S4.Model Require Import Program.
 Open Scope N_scope.
 
@@ -31,9 +35,21 @@ Definition unhexs (l : list string) : bytes := flat_map unhex l.
 Definition dated_tab (tab : list (string * Z)) : list N -> option Z :=
   let t := map (fun hz => (unhex (fst hz), snd hz)) tab in
   fun l => assoc l t.
+Definition ydated_tab (tab : list (string * (Z * Z * Z))) : list N -> option Year.ymsg :=
+  let t := map (fun hz => (unhex (fst hz), let '(m, d, tod) := snd hz in Year.mkMsg m d tod)) tab in
+  fun l => assoc l t.
 
 (* colour is off in these runs: the highlight span is irrelevant *)
 Definition dtspan0 (l : list N) : nat * nat := (0%nat, 0%nat).
+
+(* a journal entry of a case carries its text in its only field and its merge instant (ns) in the
+   monotonic slot *)
+Definition jtext_c (e : Journal.entry) : bytes := match Journal.e_fields e with f :: _ => snd f | [] => [] end.
+Definition jinst_c (e : Journal.entry) : Z := match Journal.e_mono e with Some n => Z.of_N n | None => (Journal.e_time e * 1000)%Z end.
+
+Definition mk_oracles (tab : list (string * Z)) (ytab : list (string * (Z * Z * Z))) : oracles :=
+  mkOracles (dated_tab tab) dtspan0 (ydated_tab ytab) RecordRender.f32_int_text jtext_c jinst_c
+            Journal.ref_seek_head Journal.ref_seek_realtime.
 
 (* prepend file, align, psep, has fmt, fmt, off, sep, summary, after, before *)
 Definition copts := (bool * bool * string * bool * string * Z * string * bool * option Z * option Z)%type.
@@ -43,11 +59,30 @@ Definition mk_opts (o : copts) : options :=
                Summary.c_psep := unhex ps; Summary.c_fmt := if hf then Some (unhex fm) else None;
                Summary.c_off := off; Summary.c_sep := unhex sep; Summary.c_summary := su |} a b.
 
-Definition cfile := (string * N * N * bool * list string)%type.
+Inductive ckind : Type :=
+| CText
+| CYearless (off mtime : Z)
+| CRecords (hint : N) (layout : string)
+| CEvtx (recs : list (option (Z * list string)))
+| CJournal (ents : list (Z * Z * list string)).
+
+Definition mk_kind (k : ckind) : pkind :=
+  match k with
+  | CText => KText
+  | CYearless off mt => KYearless off mt
+  | CRecords h l => KRecords h (s2b l)
+  | CEvtx recs => KEvtxFile (map (option_map (fun tt : Z * list string => (fst tt, unhexs (snd tt)))) recs)
+  | CJournal ents =>
+      KJournalFile (map (fun e : Z * Z * list string =>
+                           let '(tus, ins, text) := e in
+                           Journal.mkEntry tus [] (Some (Z.to_N ins)) [([], unhexs text)]) ents)
+  end.
+
+Definition cfile := (string * N * N * bool * list string * ckind)%type.
 Definition mk_file (x : cfile) : pfile :=
-  let '(n, ch, w, st, data) := x in
+  let '(n, ch, w, st, data, k) := x in
   mkPfile {| Summary.s_name := unhex n; Summary.s_nchars := N.to_nat ch; Summary.s_width := N.to_nat w |}
-          st (unhexs data).
+          st (unhexs data) (mk_kind k).
 
 Fixpoint index_from {A} (i : N) (l : list A) : list (N * A) :=
   match l with [] => [] | x :: r => (i, x) :: index_from (i + 1) r end.
@@ -69,17 +104,63 @@ Fixpoint first_diff_nums (i : N) (a b : list Z) : N :=
 Definition secs (o : option Z) : Z := match o with Some t => (t / 1000000000)%Z | None => (-1)%Z end.
 Definition nums_of (t : Summary.summ) : list Z :=
   [Z.of_N (Summary.u_bytes t); Z.of_N (Summary.u_lines t); Z.of_N (Summary.u_sys t);
+   Z.of_N (Summary.u_fixed t); Z.of_N (Summary.u_evtx t); Z.of_N (Summary.u_journal t);
    secs (Summary.u_first t); secs (Summary.u_last t)].
 
-(* decidable form of Program.domain (span_ok holds for dtspan0) *)
-Definition domain_b (dated : list N -> option Z) (files : list pfile) : bool :=
-  forallb (fun pf =>
-    let gs := LinesSpec.syslines dated (pf_data pf) in
-    WindowSpec.nondecreasing fst gs
-    && forallb (fun g => 2 <=? lenN (LinesSpec.group_bytes g)) gs) files.
+(* ---- decidable form of Program.src_ok (span_ok holds for dtspan0, the libsystemd contract for
+   the reference oracle, the f32 bound for f32_int_text) *)
+Definition text_ok_b (dated : list N -> option Z) (f : file) : bool :=
+  let gs := LinesSpec.syslines dated f in
+  WindowSpec.nondecreasing fst gs && forallb (fun g => 2 <=? lenN (LinesSpec.group_bytes g)) gs.
+Definition nl_term_b (t : bytes) : bool := match rev t with [] => true | b :: _ => b =? 10 end.
+Fixpoint nondecr_b (l : list Z) : bool :=
+  match l with
+  | [] => true
+  | x :: r => match r with [] => true | y :: _ => (x <=? y)%Z && nondecr_b r end
+  end.
 
-Definition gate_b (dated : list N -> option Z) (bs : N) (files : list pfile) : bool :=
-  forallb (fun pf => match Gate.gate dated bs (pf_data pf) with Gate.FileOk => true | _ => false end) files.
+Definition src_ok_b (O : oracles) (o : options) (pf : pfile) : bool :=
+  match pf_kind pf with
+  | KText => text_ok_b (o_dated O) (pf_data pf)
+  | KYearless off mt =>
+      match yl_table O off mt (pf_data pf) with
+      | Some tab => text_ok_b (yl_dated O tab) (pf_data pf)
+      | None => false
+      end
+  | KRecords hint lname =>
+      let f := pf_data pf in
+      match p_detect hint f, find_layout lname, assoc lname FixedStructTables.fixedstruct_render with
+      | Some (Some n, _), Some L, Some _ =>
+          beqb n lname && forallb (fun b => b <? 256) f
+          && forallb (fun r => (0 <=? snd (RecordsSpec.r_tv r))%Z && (snd (RecordsSpec.r_tv r) <? 1000000)%Z)
+                     (records_kept (op_after o) (op_before o) L f)
+      | _, _, _ => false
+      end
+  | KEvtxFile recs => forallb (fun r : option (Z * bytes) => match r with Some (_, t) => nl_term_b t | None => true end) recs
+  | KJournalFile j =>
+      nondecr_b (Journal.times j) && forallb (fun t => (0 <? t)%Z) (Journal.times j)
+      && forallb (fun e => nl_term_b (o_jtext O e)) j
+      && nondecr_b (map (o_jinst O) (JournalSpec.window Journal.e_time (option_map us_of_ns (op_after o))
+                                                        (option_map us_of_ns (op_before o)) j))
+  end.
+
+Fixpoint first_bad_src (O : oracles) (o : options) (i : N) (files : list pfile) : option N :=
+  match files with
+  | [] => None
+  | pf :: r => if src_ok_b O o pf then first_bad_src O o (i + 1) r else Some i
+  end.
+
+Definition gate_b (O : oracles) (bs : N) (files : list pfile) : bool :=
+  forallb (fun pf =>
+    match pf_kind pf with
+    | KText => match Gate.gate (o_dated O) bs (pf_data pf) with Gate.FileOk => true | _ => false end
+    | KYearless off mt =>
+        match yl_table O off mt (pf_data pf) with
+        | Some tab => match Gate.gate (yl_dated O tab) bs (pf_data pf) with Gate.FileOk => true | _ => false end
+        | None => false
+        end
+    | _ => true
+    end) files.
 
 Definition compare (r : list Print.out * Summary.summ) (summary : bool) (out : bytes) (nums : list Z) : N :=
   match first_diff_bytes 0 (Print.payload (fst r)) out with
@@ -90,15 +171,23 @@ Definition compare (r : list Print.out * Summary.summ) (summary : bool) (out : b
 Definition summary_of (o : copts) : bool := let '(_, _, _, _, _, _, _, su, _, _) := o in su.
 
 (* ---- C: the specification *)
-Definition spec_case := (copts * list cfile * list (string * Z) * N * list string * list Z)%type.
+Definition spec_case := (copts * list cfile * list (string * Z) * list (string * (Z * Z * Z)) * N * list string * list Z)%type.
 
 Definition spec_code (c : spec_case) : N :=
-  let '(o, fs, tab, bs, out, nums) := c in
-  let dated := dated_tab tab in
+  let '(o, fs, tab, ytab, bs, out, nums) := c in
+  let O := mk_oracles tab ytab in
   let files := map mk_file fs in
-  if negb (domain_b dated files) then 7
-  else if negb (gate_b dated bs files) then 8
-  else compare (program_spec dated dtspan0 (mk_opts o) files) (summary_of o) (unhexs out) nums.
+  match first_bad_src O (mk_opts o) 0 files with
+  | Some i => 9000000 + i
+  | None =>
+      if negb (gate_b O bs files) then 8
+      else compare (program_spec O (mk_opts o) files) (summary_of o) (unhexs out) nums
+  end.
+
+(* the specification's stdout of a case (for the expected output of a failure report / replay) *)
+Definition spec_stdout (c : spec_case) : bytes :=
+  let '(o, fs, tab, ytab, bs, out, nums) := c in
+  Print.payload (fst (program_spec (mk_oracles tab ytab) (mk_opts o) (map mk_file fs))).
 
 Definition spec_bad (cs : list spec_case) : list (N * N) :=
   flat_map (fun ic => let c := spec_code (snd ic) in if c =? 0 then [] else [(fst ic, c)]) (index_from 0 cs).
@@ -118,17 +207,20 @@ Definition cap : N := CoordTables.channel_capacity.
 
 Definition model_code (mc : model_case) : N :=
   let '(c, t) := mc in
-  let '(o, fs, tab, bs, out, nums) := c in
-  let dated := dated_tab tab in
+  let '(o, fs, tab, ytab, bs, out, nums) := c in
+  let O := mk_oracles tab ytab in
   let files := map mk_file fs in
-  if negb (domain_b dated files) then 7
-  else if negb (gate_b dated bs files) then 8
-  else match program_m dated dtspan0 (N.to_nat cap) bs (sched_of t) (mk_opts o) files with
-       | POk r => compare r (summary_of o) (unhexs out) nums
-       | PWorker _ _ => 21
-       | PSchedule => 22
-       | PNotFinal => 23
-       end.
+  match first_bad_src O (mk_opts o) 0 files with
+  | Some i => 9000000 + i
+  | None =>
+      if negb (gate_b O bs files) then 8
+      else match program_m O (N.to_nat cap) bs (sched_of t) (mk_opts o) files with
+           | POk r => compare r (summary_of o) (unhexs out) nums
+           | PWorker _ _ => 21
+           | PSchedule => 22
+           | PNotFinal => 23
+           end
+  end.
 
 Definition model_bad (cs : list model_case) : list (N * N) :=
   flat_map (fun ic => let c := model_code (snd ic) in if c =? 0 then [] else [(fst ic, c)]) (index_from 0 cs).
